@@ -56,6 +56,12 @@ UNCOMMON = [
     ['(define-const u_c Int 3)', '(assert (< u_c 4))'],
     ['(assert (let ((u_x 1) (u_y 2)) (let ((u_x u_y)) (= u_x 2))))'],
     ['(reset-assertions)', '(reset)'],
+    # characters outside ASCII (in the places where the standard allows any
+    # printable character: quoted symbols, literals, comments)
+    ['(set-info :source |Überprüfung – café|)', '(declare-const |größe| Int)',
+     '(assert (> |größe| 0))', '; José, 日本'],
+    ['(declare-const u_str String)', '(assert (= u_str "é!"))',
+     '(assert (str.contains u_str "ß"))'],
 ]
 
 
@@ -88,7 +94,11 @@ def render_with_noise(r, nested, comments=True, uncommon=None):
             line += ' ; trailing'
         lines.append(line)
     if uncommon:
-        for group in r.sample(UNCOMMON, r.randint(1, 2)):
+        groups = r.sample(UNCOMMON, r.randint(1, 2))
+        if r.random() < 0.3:
+            # (the two groups with characters outside ASCII are the last)
+            groups.append(r.choice(UNCOMMON[-2:]))
+        for group in groups:
             at = r.randint(1 if lines else 0, len(lines))
             lines[at:at] = group
     return '\n'.join(lines) + '\n'
